@@ -54,6 +54,10 @@ def job_src(tid, src, cfg, evm="cancun", scale=1, light=False):
         return number(obs)
     idx = z3.BitVec("idx!", 256)
     terms = T.cd_eval_terms(env, 8)
+    for k in (1, 2):  # what the adversarial callee answered (for replay files)
+        rd = z3.Array(f"call_retdata!{k}{env.tag}", Mx.W, Mx.B8)
+        for i in range(3):
+            terms[f"retdata{k}_w{i}"] = z3.Concat(*[z3.Select(rd, BV(32 * i + j)) for j in range(32)])
     regions = R.slack_regions(T.compile_full(src, cfg, evm)["layout"])
     defs = []
     for s in spec:
